@@ -213,6 +213,9 @@ def main():
         V.violation({"symptom": "trace-rejected"},
                     "the call log of Sync.Run on scenario %d (W=%d, %s) is not a behaviour of spec/Sync.tla: %s" %
                     (q["id"], q["workers"], q["target"], why), {"scenario": q})
+    # ---- beyond the property: factories and the command-line tool (spec/Tools.tla)
+    import check_c12_cli
+    clicov = check_c12_cli.run(tier, V, machinery, scs, tla_scenario)
     rc = V.finish()
     for m in machinery:
         print("MACHINERY: " + m[:600])
@@ -224,7 +227,7 @@ def main():
                 "interleavings and executed on the real Sync.Run for W in {1,2,4,..} x {memory, file-system} targets, twice in a row; "
                 "non-trivial = the source holds something" % len(scs),
         "scenarios": len(scs), "call_logs_validated": ntr, "call_logs_accepted": nacc, "corrupted_call_logs_rejected": check_c12_trace.REJECTED[0], "race_detector_scenarios": len(rq),
-        "model_reaches_data_race": bool(model_race), "exhaustive": False, "known_findings_hit": V.hit},
+        "model_reaches_data_race": bool(model_race), "exhaustive": False, "known_findings_hit": V.hit, **clicov},
         time.time() - t0, len(V.new),
         assumptions=["asset lists without duplicates", "data races are detected by the Go race detector under the schedules of W=4; the "
                      "model shows them reachable in the design"])
